@@ -125,11 +125,22 @@ func (d *Driver) fail(class, format string, args ...any) {
 // Options converts the configuration to store options.
 func (c StoreCfg) Options() []store.Option {
 	opts := []store.Option{
-		store.IndexBitSize(c.Bits),
-		store.IndexFileSize(c.IndexFile),
-		store.PrimaryFileSize(c.PrimaryFile),
-		store.FileCacheSize(c.FileCache),
 		store.GCInterval(time.Duration(c.GCMs) * time.Millisecond),
+	}
+	if c.Bits != 24 {
+		opts = append(opts, store.IndexBitSize(c.Bits))
+	}
+	// a value equal to the documented default is configured by leaving the
+	// option out, as callers do: the defaults the store fills in are then part
+	// of what is exercised (1 GiB file limits, 512 cached files, 24 bits)
+	if c.IndexFile != 1<<30 {
+		opts = append(opts, store.IndexFileSize(c.IndexFile))
+	}
+	if c.PrimaryFile != 1<<30 {
+		opts = append(opts, store.PrimaryFileSize(c.PrimaryFile))
+	}
+	if c.FileCache != 512 {
+		opts = append(opts, store.FileCacheSize(c.FileCache))
 	}
 	if c.GCLimitMs != 0 {
 		opts = append(opts, store.GCTimeLimit(time.Duration(c.GCLimitMs)*time.Millisecond))
